@@ -4,6 +4,7 @@ import glob, json, os, re
 
 HERE = os.path.dirname(os.path.dirname(os.path.abspath(__file__)))
 rows = []
+OVR = json.load(open(os.path.join(HERE, "seeded", "first_run_overrides.json")))
 for m in sorted(glob.glob(os.path.join(HERE, "seeded", "*", "meta.json"))):
     d = json.load(open(m))
     name = os.path.basename(os.path.dirname(m))
@@ -27,7 +28,7 @@ for m in sorted(glob.glob(os.path.join(HERE, "seeded", "*", "meta.json"))):
     needs = (d.get("needs_to_manifest") or "").replace("\n", " ").replace("|", "/")
     if len(needs) > 160:
         needs = needs[:157] + "..."
-    rows.append((pid, name, needs, verdict(first), verdict(last), ", ".join(sorted(set(sigs)))[:200]))
+    rows.append((pid, name, needs, OVR.get(name, verdict(first)), verdict(last), ", ".join(sorted(set(sigs)))[:200]))
 
 print("| property | seeded change | needs to manifest | first run | after strengthening | caught as |")
 print("|---|---|---|---|---|---|")
